@@ -454,7 +454,7 @@ func runC15(c *Ctx) {
 	fixed := storeHasFix(scratch)
 	sh := c.newShard("f15", runnerFC, "caseC", "mismatchesC", "violationsC")
 	sh.limit = 1
-	nHist := c.pick(14, 60)
+	nHist := c.pick(18, 150)
 	for i := 0; i < nHist; i++ {
 		c15History(c, sh, filepath.Join(scratch, fmt.Sprintf("h%d", i)), i, fixed)
 	}
